@@ -4,6 +4,7 @@
 import Driver.Codec
 import Svgdx.Ctl.SimpleEval
 import Svgdx.Sched.Retry
+import Svgdx.Cli.Run
 import Driver.Expr
 namespace Driver
 open Svgdx Ctl
@@ -105,6 +106,23 @@ def handleCtl (op : Str) (args : List Str) : Option String :=
     match Sched.run items with
     | some env => some (joinFields (cs!"some" :: env.reverse.map fun p => natField p.1 ++ ['='] ++ natField p.2))
     | none => some (joinFields [cs!"none"])
+  else if op == cs!"cli_run" then
+    -- `cli_run sameFile outExists transformOk` → exit (ok|err), output file (new|kept|absent)
+    match args with
+    | [same, ex, tok] =>
+      let inp : Str := cs!"/d/in.xml"
+      let out : Str := if same == ['1'] then cs!"/d/./in.xml" else cs!"/d/out.svg"
+      let canon : Str → Str := fun p => if p == cs!"/d/./in.xml" then cs!"/d/in.xml" else p
+      let fs0 : Cli.FS := ⟨[(inp, cs!"INPUT")] ++ (if ex == ['1'] && same != ['1'] then [(out, cs!"PREVIOUS")] else [])⟩
+      let t : Str → Option Str := fun _ => if tok == ['1'] then some cs!"NEW" else none
+      let before := fs0.read (canon out)
+      let (fs1, ex1) := Cli.run canon t fs0 inp out
+      let after := fs1.read (canon out)
+      let o : Str := match after with
+        | none => cs!"absent"
+        | some c => if some c == before then cs!"kept" else if c == cs!"NEW" then cs!"new" else cs!"other"
+      some (joinFields [(match ex1 with | .ok => cs!"ok" | .err => cs!"err"), o])
+    | _ => none
   else if op == cs!"eval_vars" then
     match args with
     | n :: rest =>
